@@ -63,11 +63,11 @@ func unliteralize(filename string, src []byte) ([]byte, int) {
 	// (identifiers, literals, pkg.Name / x.method selectors used as the function of a call)
 	isIIFE := func(e ast.Expr) bool {
 		call, ok := e.(*ast.CallExpr)
-		if !ok || len(call.Args) != 0 || call.Ellipsis.IsValid() {
+		if !ok || call.Ellipsis.IsValid() {
 			return false
 		}
-		_, ok = ast.Unparen(call.Fun).(*ast.FuncLit)
-		return ok
+		lit, ok := ast.Unparen(call.Fun).(*ast.FuncLit)
+		return ok && len(call.Args) == litParamCount(lit)
 	}
 	// callFree: only reads (variables, fields, elements, arithmetic): the language leaves the order of such reads
 	// relative to calls in the same statement unspecified, so moving a literal's body before them stays within it
@@ -213,11 +213,11 @@ func unliteralize(filename string, src []byte) ([]byte, int) {
 			return nil, nil, nil
 		}
 		call := *pc
-		if len(call.Args) != 0 || call.Ellipsis.IsValid() {
+		if call.Ellipsis.IsValid() {
 			return nil, nil, nil
 		}
 		lit, ok := ast.Unparen(call.Fun).(*ast.FuncLit)
-		if !ok {
+		if !ok || len(call.Args) != litParamCount(lit) {
 			return nil, nil, nil
 		}
 		return call, lit, slot
@@ -227,14 +227,18 @@ func unliteralize(filename string, src []byte) ([]byte, int) {
 		return c, l
 	}
 	supported := func(lit *ast.FuncLit) bool {
-		if lit.Type.Params != nil && len(lit.Type.Params.List) > 0 {
+		if litParamCount(lit) < 0 {
 			return false
 		}
 		if lit.Type.Results != nil {
+			named := 0
 			for _, fl := range lit.Type.Results.List {
 				if len(fl.Names) > 0 {
-					return false
+					named++
 				}
+			}
+			if named != 0 && named != len(lit.Type.Results.List) {
+				return false
 			}
 		}
 		ok := true
@@ -254,14 +258,39 @@ func unliteralize(filename string, src []byte) ([]byte, int) {
 		return ok
 	}
 	// build the replacement prelude for a literal; returns the statements to put before and the result idents
-	build := func(lit *ast.FuncLit) (pre []ast.Stmt, results []ast.Expr) {
+	build := func(lit *ast.FuncLit, call *ast.CallExpr) (pre []ast.Stmt, results []ast.Expr) {
 		unlitCounter++
 		counter := unlitCounter
 		label := fmt.Sprintf("dvFold%d", counter)
 		var rtypes []ast.Expr
+		var named []*ast.Ident // the literal's named results, if any
+		var bind []ast.Stmt    // parameters bound to the arguments, named results declared: first in the clause
+		if lit.Type.Params != nil {
+			ai := 0
+			for _, fl := range lit.Type.Params.List {
+				for _, nm := range fl.Names {
+					bind = append(bind, &ast.DeclStmt{Decl: &ast.GenDecl{Tok: token.VAR, Specs: []ast.Spec{&ast.ValueSpec{Names: []*ast.Ident{ast.NewIdent(nm.Name)}, Type: fl.Type, Values: []ast.Expr{call.Args[ai]}}}}})
+					if nm.Name != "_" {
+						bind = append(bind, &ast.AssignStmt{Lhs: []ast.Expr{ast.NewIdent("_")}, Tok: token.ASSIGN, Rhs: []ast.Expr{ast.NewIdent(nm.Name)}})
+					}
+					ai++
+				}
+			}
+		}
 		if lit.Type.Results != nil {
 			for _, fl := range lit.Type.Results.List {
-				rtypes = append(rtypes, fl.Type)
+				if len(fl.Names) == 0 {
+					rtypes = append(rtypes, fl.Type)
+					continue
+				}
+				for _, nm := range fl.Names {
+					rtypes = append(rtypes, fl.Type)
+					named = append(named, nm)
+					bind = append(bind, &ast.DeclStmt{Decl: &ast.GenDecl{Tok: token.VAR, Specs: []ast.Spec{&ast.ValueSpec{Names: []*ast.Ident{ast.NewIdent(nm.Name)}, Type: fl.Type}}}})
+					if nm.Name != "_" {
+						bind = append(bind, &ast.AssignStmt{Lhs: []ast.Expr{ast.NewIdent("_")}, Tok: token.ASSIGN, Rhs: []ast.Expr{ast.NewIdent(nm.Name)}})
+					}
+				}
 			}
 		}
 		var rnames []*ast.Ident
@@ -294,15 +323,26 @@ func unliteralize(filename string, src []byte) ([]byte, int) {
 				for _, id := range rnames {
 					lhs = append(lhs, ast.NewIdent(id.Name))
 				}
-				c.Replace(&ast.BlockStmt{List: []ast.Stmt{&ast.AssignStmt{Lhs: lhs, Tok: token.ASSIGN, Rhs: x.Results}, brk}})
+				rhs := x.Results
+				if len(rhs) == 0 {
+					// bare return: the named results
+					for _, nm := range named {
+						rhs = append(rhs, ast.NewIdent(nm.Name))
+					}
+				}
+				c.Replace(&ast.BlockStmt{List: []ast.Stmt{&ast.AssignStmt{Lhs: lhs, Tok: token.ASSIGN, Rhs: rhs}, brk}})
 				return false
 			}
 			return true
 		}, nil)
+		stmts := append(bind, body.List...)
+		if len(named) > 0 && !endsInReturn(body) {
+			// falling off the end of a literal is only possible without results; kept for symmetry
+		}
 		if usesLabel {
-			pre = append(pre, &ast.LabeledStmt{Label: ast.NewIdent(label), Stmt: &ast.SwitchStmt{Body: &ast.BlockStmt{List: []ast.Stmt{&ast.CaseClause{Body: body.List}}}}})
+			pre = append(pre, &ast.LabeledStmt{Label: ast.NewIdent(label), Stmt: &ast.SwitchStmt{Body: &ast.BlockStmt{List: []ast.Stmt{&ast.CaseClause{Body: stmts}}}}})
 		} else {
-			pre = append(pre, &ast.BlockStmt{List: body.List})
+			pre = append(pre, &ast.BlockStmt{List: stmts})
 		}
 		return pre, results
 	}
@@ -365,14 +405,14 @@ func unliteralize(filename string, src []byte) ([]byte, int) {
 		if init != nil {
 			if call, lit := iifeOf(*init); call != nil && supported(lit) {
 				if as, isAssign := (*init).(*ast.AssignStmt); isAssign {
-					pre, results := build(lit)
+					pre, results := build(lit, call)
 					for _, p := range pre {
 						c.InsertBefore(p)
 					}
 					as.Rhs = results
 					n++
 				} else if _, isExpr := (*init).(*ast.ExprStmt); isExpr {
-					pre, _ := build(lit)
+					pre, _ := build(lit, call)
 					for _, p := range pre {
 						c.InsertBefore(p)
 					}
@@ -394,10 +434,7 @@ func unliteralize(filename string, src []byte) ([]byte, int) {
 			}
 		}
 		if as, isAssign := st.(*ast.AssignStmt); isAssign && len(as.Rhs) == 1 && isIIFE(as.Rhs[0]) {
-			nres := 0
-			if lit.Type.Results != nil {
-				nres = len(lit.Type.Results.List)
-			}
+			nres := litResultCount(lit)
 			if nres != len(as.Lhs) {
 				return true
 			}
@@ -412,11 +449,11 @@ func unliteralize(filename string, src []byte) ([]byte, int) {
 			case *ast.ReturnStmt:
 				direct = slot == &x.Results[0]
 			}
-			if !direct && (lit.Type.Results == nil || len(lit.Type.Results.List) != 1) {
+			if !direct && litResultCount(lit) != 1 {
 				return true
 			}
 		}
-		pre, results := build(lit)
+		pre, results := build(lit, call)
 		for _, p := range pre {
 			c.InsertBefore(p)
 		}
@@ -440,4 +477,42 @@ func unliteralize(filename string, src []byte) ([]byte, int) {
 		return src, 0
 	}
 	return buf.Bytes(), n
+}
+
+// litParamCount: the number of (named) parameters of a literal the unfolding can bind, -1 when it has unnamed or
+// variadic parameters.
+func litParamCount(lit *ast.FuncLit) int {
+	n := 0
+	if lit.Type.Params == nil {
+		return 0
+	}
+	for _, fl := range lit.Type.Params.List {
+		if _, variadic := fl.Type.(*ast.Ellipsis); variadic || len(fl.Names) == 0 {
+			return -1
+		}
+		n += len(fl.Names)
+	}
+	return n
+}
+
+func endsInReturn(b *ast.BlockStmt) bool {
+	if len(b.List) == 0 {
+		return false
+	}
+	_, ok := b.List[len(b.List)-1].(*ast.ReturnStmt)
+	return ok
+}
+
+func litResultCount(lit *ast.FuncLit) int {
+	n := 0
+	if lit.Type.Results != nil {
+		for _, fl := range lit.Type.Results.List {
+			if len(fl.Names) == 0 {
+				n++
+			} else {
+				n += len(fl.Names)
+			}
+		}
+	}
+	return n
 }
